@@ -69,7 +69,7 @@ func (o Op) String() string {
 // Mutating reports whether the op can change the tree.
 func (o Op) Mutating() bool {
 	switch o.Kind {
-	case "Stat", "ReadDir", "ReadFile":
+	case "Stat", "ReadDir", "ReadFile", "Lstat", "LstatOrStat", "Sub":
 		return false
 	case "OpenFile":
 		return o.Flag&(hackpadfs.FlagCreate|hackpadfs.FlagTruncate) != 0 || (o.Flag&3 != 0 && len(o.Data) > 0)
@@ -165,6 +165,44 @@ func applyOp(fs hackpadfs.FS, o Op) (out Out) {
 		out.Err = err
 		if err == nil {
 			out.Data = fmt.Sprintf("%d:%x", len(b), hashStr(string(b)))
+		}
+	case "Create":
+		f, err := hackpadfs.Create(fs, o.P)
+		out.Err = err
+		if err == nil {
+			if len(o.Data) > 0 {
+				n, werr := hackpadfs.WriteFile(f, o.Data)
+				out.Data = fmt.Sprintf("write n=%d %s", n, okFail(werr))
+			}
+			out.Data += " close=" + okFail(f.Close())
+		}
+	case "Lstat", "LstatOrStat":
+		var info hackpadfs.FileInfo
+		if o.Kind == "Lstat" {
+			info, out.Err = hackpadfs.Lstat(fs, o.P)
+		} else {
+			info, out.Err = hackpadfs.LstatOrStat(fs, o.P)
+		}
+		if out.Err == nil {
+			out.Data = infoString(info)
+			if o.P == "." && !o.Raw {
+				out.Data = fmt.Sprintf("root kind-dir=%v", info.IsDir())
+			}
+		}
+	case "Chown":
+		out.Err = hackpadfs.Chown(fs, o.P, 0, 0)
+	case "Symlink":
+		out.Err = hackpadfs.Symlink(fs, o.P, o.Q)
+	case "Sub":
+		sub, err := hackpadfs.Sub(fs, o.P)
+		out.Err = err
+		if err == nil {
+			ents, derr := hackpadfs.ReadDir(sub, ".")
+			var l []string
+			for _, e := range ents {
+				l = append(l, e.Name())
+			}
+			out.Data = fmt.Sprintf("sub listing %v %s", l, errClass(derr))
 		}
 	default:
 		panic("unknown op " + o.Kind)
